@@ -66,6 +66,11 @@ def generate(run, jobs):
     return recs
 
 
+FAIL_KINDS = ["cond-notbool", "break-outside", "continue-outside", "arith-asg", "arith-if", "div-zero", "undef-var",
+              "undef-func", "undef-method", "nil-deref", "nil-deref-set", "index-read", "index-write", "store-kind",
+              "panic-method", "argcount", "not-nonbool", "cmp-if", "logic-asg", "arith-return", "panic-func-return", "arith-conc"]
+
+
 def to_call(rec, rng, tpls):
     beh = {}
     for name, b in rec["beh"]:
@@ -91,15 +96,21 @@ def to_sessions(recs, rng, targets=("engine", "pool"), chain=1, sample=None, btp
         rs = groups[key]
         rng.shuffle(rs)
         rules = json.loads(key)
-        for i in range(0, len(rs), chain):
-            part = rs[i:i + chain]
+        i = 0
+        while i < len(rs):
+            # histories: up to `chain` consecutive calls (of any generated method) on one engine / pool
+            k = rng.randint(1, chain)
+            part = rs[i:i + k]
+            i += k
             for tgt in targets:
                 if tgt == "pool" and not rules:
                     continue
                 tpls = {}
+                fks = {}
                 trng = random.Random(key + tgt + str(i // (chain * 40)))   # few distinct texts per rule set
                 for ru in rules:
                     tpls[ru["name"]] = "B" if trng.random() < btpl else "A"
+                    fks[ru["name"]] = trng.choice(FAIL_KINDS) if trng.random() < 0.4 else ""
                     # an "ok" outcome needs template A
                     if any(b == "ok" for p in part for n, b in p["beh"] if n == ru["name"]):
                         tpls[ru["name"]] = "A"
@@ -112,7 +123,7 @@ def to_sessions(recs, rng, targets=("engine", "pool"), chain=1, sample=None, btp
                         elif c["method"] in EM_SEL and x == 0:
                             c["via"] = "emSelected"
                 sid += 1
-                decl = [{"name": ru["name"], "sal": ru["sal"], "tpl": tpls[ru["name"]]} for ru in rules]
+                decl = [{"name": ru["name"], "sal": ru["sal"], "tpl": tpls[ru["name"]], "fk": fks[ru["name"]]} for ru in rules]
                 gated = any(c["method"] not in SEQ_ONLY for c in calls)
                 sess = {"id": sid, "target": tgt, "gated": gated, "burst": gated and rng.random() < 0.5,
                         "rules": decl, "calls": calls}
